@@ -51,6 +51,8 @@ let () =
           (b2s (sh_shut e)) (int_of_nat (sh_gone e)) (int_of_nat (sh_pcI e)) (b2s (sh_wait e)) (b2s en);
         let f = run (sh_step true) (sh_selfail_witness @ sh_finishing) sh_init in
         Printf.printf "witness select_failure_head finishes=%s gone=%d\n" (b2s (sh_final f)) (int_of_nat (sh_gone f));
+        let ls = run (ls_step false) ls_witness ls_init in
+        Printf.printf "witness shutdown_vs_listener join_of_unstarted_thread=%s thread_created_after_shutdown=%s\n" (b2s (ls_badjoin ls)) (b2s (ls_late ls));
         let l = run (rc_step false false) rc_leak_witness rc_init in
         Printf.printf "witness thread_reclaim_head final=%s reclaimed=%d\n" (b2s (rc_final l)) (int_of_nat (rc_reclaimed l));
         let l6 = run (rc_step true false) (rc_leak_witness @ rc_finishing) rc_init in
@@ -75,6 +77,9 @@ let () =
         let m = nat_of_int (int_of_string mode) in
         let s = run (nf_step (fixed = "1") m) (sched_of ws) (nf_init m) in
         Printf.printf "nf final=%s ok=%s send=%d bad_unlock=%s\n" (b2s (nf_final s)) (b2s (nf_ok s)) (int_of_nat (nf_send s)) (b2s (nf_badunlock s))
+    | "ls" :: fixed :: ws ->
+        let s = run (ls_step (fixed = "1")) (sched_of ws) ls_init in
+        Printf.printf "ls final=%s badjoin=%s late=%s\n" (b2s (ls_final s)) (b2s (ls_badjoin s)) (b2s (ls_late s))
     | "rc" :: fixed :: early :: ws ->
         let s = run (rc_step (fixed = "1") (early = "1")) (sched_of ws) rc_init in
         Printf.printf "rc final=%s reclaimed=%d joined=%d detached=%s bad=%s\n" (b2s (rc_final s)) (int_of_nat (rc_reclaimed s)) (int_of_nat (rc_joined s)) (b2s (rc_detached s)) (b2s (rc_bad s))
